@@ -51,8 +51,12 @@ LEVEL_NOTE = ("Trusted: Lean kernel + standard axioms; the harness that extracts
               "entered; every path through it raises (RuntimeError, or the KeyError of getcycle(dsk, None) when a shared data "
               "root was already removed -- observation, the statement only asks for an error). Set iteration order: the model "
               "sweeps leaves/roots in list order, theorems hold for every listing; the harness lists the graph so that the "
-              "model's strip order is the one the real run took. Fixed in /repo: colliding priorities with >= 2 stripped "
-              "non-task leaves (DESIGN 6 #2).")
+              "model's strip order is the one the real run took. A cyclic input counts as rejected only when the exception "
+              "comes out of the cycle-test branch (RuntimeError 'Cycle detected', or whatever getcycle raises there): a later "
+              "crash of the core (ZeroDivisionError/IndexError/KeyError, as with the test removed) is reported as a failure. "
+              "Fixed in /repo: colliding priorities with >= 2 stripped non-task leaves (DESIGN 6 #2, 5bee7e7); IndexError on "
+              "acyclic graphs whose shared data root was removed and all of whose dependents were stripped afterwards "
+              "(389cb25, found by the exhaustive 6-node space; Lean witness orphaned_data_root_witness).")
 TECHNIQUE = ("Lean 4 proofs: checker (validOrder_iff) applied to every real output (translation validation), frame theorem "
              "over the transliterated normalisation loop with a decidable side condition (coreOKb_iff) checked per output, "
              "cycle rejection by loop invariants (strip: SInv; ndependencies: TopoRev soundness + counting invariant, fuel "
@@ -152,20 +156,27 @@ class _View:
 
 
 def _call_order(ctx, v, what):
-    """real order(); returns ('ok', res) | ('raised', exception type name)"""
+    """real order(); returns ('ok', res) | ('raised', exception type name).
+    A cyclic graph must be rejected *by the cycle test*: RuntimeError('Cycle detected ...') raised by order() itself, or
+    whatever getcycle(dsk, None) raises inside that branch (seen: KeyError when a shared data root was already removed;
+    the cycle message is lost -- recorded in notes/graph.md, the statement only asks for an error). An exception from
+    anywhere else (ZeroDivisionError / IndexError / KeyError out of the ordering core, as happens when the test is
+    removed) is a crash, not a rejection."""
+    import traceback
     from dask.order import order
     try:
         return "ok", order(v.dsk)
-    except RuntimeError as e:
-        if not v.cyclic:
-            ctx.fail(f"{what}: RuntimeError on an acyclic graph: {e}")
-        return "raised", "RuntimeError"
     except Exception as e:
+        name = type(e).__name__
+        frames = [f.name for f in traceback.extract_tb(e.__traceback__)]
+        in_cycle_branch = ((isinstance(e, RuntimeError) and str(e).startswith("Cycle detected") and frames[-1] == "order")
+                           or "getcycle" in frames)
         if not v.cyclic:
-            ctx.fail(f"{what} raised {type(e).__name__}: {e}")
-        # cyclic: the statement only asks for "an error"; seen: KeyError from getcycle() on the graph whose shared data
-        # roots were already removed (the cycle message is lost) -- recorded in notes/graph.md, not a violation
-        return "raised", type(e).__name__
+            ctx.fail(f"{what} raised {name} on an acyclic graph: {e}")
+        elif not in_cycle_branch:
+            ctx.fail(f"{what}: cyclic graph got past the cycle test and crashed later with {name}: {str(e)[:80]}",
+                     observed=frames[-3:])
+        return "raised", name
 
 
 def _run_order(ctx, dsk, what="order", frame=True):
@@ -490,7 +501,8 @@ def _tower(rng):
 def _close_cycle(rng, adj):
     """walk down from a random node along dependencies and let the node reached depend on the start: a cycle of
     length >= 2 whenever the start has a dependency"""
-    a = rng.randrange(len(adj))
+    cand = [i for i in range(len(adj)) if adj[i]]
+    a = rng.choice(cand) if cand and rng.random() < 0.85 else rng.randrange(len(adj))
     b = a
     for _ in range(rng.randint(1, 4)):
         if not adj[b]:
